@@ -266,6 +266,12 @@ structure Checker where
   /-- `clock().Unix()` -/
   now : Int
 
+/-- `c.IsRevoked != nil && c.IsRevoked(cert)` -/
+def Checker.revoked (ck : Checker) (c : Cert) : Bool :=
+  match ck.isRevoked with
+  | some f => f c
+  | none => false
+
 /-- the two timestamp tests exactly as written in CheckCert -/
 def timeGo (now : Int) (va vb : Nat) : Bool :=
   if toInt64 va < 0 ∨ now < toInt64 va then false
@@ -280,7 +286,7 @@ def principalOk (principal : Bytes) (ps : List Bytes) : Bool :=
 
 /-- `CheckCert` in the order of the code.  `verify key msg sig` is `skKeyWithoutUP(key).Verify(msg, sig)`. -/
 def checkCert (verify : PubKey → Bytes → Sig → Bool) (ck : Checker) (principal : Bytes) (c : Cert) : Res :=
-  if (match ck.isRevoked with | some f => f c | none => false) then .reject
+  if ck.revoked c then .reject
   else if !optsOk ck.supported c.critOpts then .reject
   else if !principalOk principal c.principals then .reject
   else if !timeGo ck.now c.validAfter c.validBefore then .reject
@@ -296,7 +302,7 @@ def checkCert (verify : PubKey → Bytes → Sig → Bool) (ck : Checker) (princ
     that were RECEIVED (`recv` = the received blob without its trailing signature field). -/
 def checkCertRecv (verify : PubKey → Bytes → Sig → Bool) (ck : Checker) (principal : Bytes) (c : Cert)
     (recvSigned : Bytes) : Res :=
-  if (match ck.isRevoked with | some f => f c | none => false) then .reject
+  if ck.revoked c then .reject
   else if !optsOk ck.supported c.critOpts then .reject
   else if !principalOk principal c.principals then .reject
   else if !timeGo ck.now c.validAfter c.validBefore then .reject
